@@ -478,6 +478,19 @@ def r_field_sources(r, prog):
                     seen.add((name, k))
                 else:
                     r.finding('converted-field:%s.%s:%s' % (name, k, where), f.span, 'in %s the field %s.%s is filled from %s; it must come from %s' % (where, name, k, got[:200], spec.get(k)))
+    # numbers are split / converted at their full width: value() is an i128; a narrowing cast before unsigned_abs / is_negative / try_into is
+    # invisible in the value expressions above (casts are transparent there) but wraps the upper half of uint64
+    for f in prog.fns.values():
+        if not f.path.startswith('slicec_bin::slice_file_converter::') or f.generated:
+            continue
+        for c in f.calls():
+            if c.name() in ('unsigned_abs', 'is_negative', 'try_into') and not f.blocks[c.bb].get('cleanup') and vexpr(f, c.args[0]) == 'value(arg2)':
+                recv = (c.resolved or c.callee or '') + ' ' + ' '.join(c.targs or [])
+                if 'i128' in recv:
+                    r.ok('%s: %s is applied to the i128 value itself' % (f.name, c.name()))
+                else:
+                    r.finding('number-narrowed-before-conversion:%s:%s' % (f.name, c.name()), c.span,
+                              '%s applies %s to a narrowed copy of the value (%s): values outside that width wrap' % (f.name, c.name(), recv.strip()[:80]))
     missing = [(n, k) for n, sp in FIELD_SOURCES.items() for k in sp if (n, k) not in seen] + [('Symbol', v) for v in SYMBOL_PAYLOAD if ('Symbol', v) not in seen]
     if missing:
         r.finding('converted-field-never-built', '-', 'the converter never fills %s' % missing)
